@@ -4,8 +4,8 @@
   tools/seed_eval.py <ID> [--props C01,C02,...] [--patch other.diff] [--keep-name NAME]
 
 1. in the agent's scratch worktree /tmp/seed/<ID> (change applied): build, run the lib suite
-   (must be 30 passed / 2 known failures), run tests/seed_demo.rs (must FAIL), stash the src
-   change, run the demo again (must PASS), pop the stash;
+   (must be 30 passed / 2 known failures), run tests/seed_demo.rs (must FAIL), reverse-apply the src
+   change, run the demo again (must PASS), re-apply it;
 2. apply patch.diff to /repo, run every check (or --props), undo with `git checkout -- .`;
 3. store patch.diff, the demo and meta.json under /verif/seeded/<NAME>/.
 """
@@ -60,12 +60,13 @@ def main():
         meta["suite_with_change"] = {"passed": p, "failed": f, "failed_tests": failed}
         rc1, m1, out1 = demo(wt)
         meta["demo_with_change"] = {"rc": rc1, "results": m1}
-        sh("git stash push -- src", wt)
+        # NOT git stash: refs/stash is shared by all worktrees of one repository
+        sh("git diff -- src > /tmp/seed/_%s.src.diff && git apply -R /tmp/seed/_%s.src.diff" % (a.id, a.id), wt)
         try:
             rc2, m2, out2 = demo(wt)
             p0, f0, failed0 = suite(wt)
         finally:
-            sh("git stash pop", wt)
+            sh("git apply /tmp/seed/_%s.src.diff" % a.id, wt)
         meta["demo_without_change"] = {"rc": rc2, "results": m2}
         meta["suite_without_change"] = {"passed": p0, "failed": f0, "failed_tests": failed0}
         ok = (p == 30 and failed == ["model::tests::multiple_models", "tests::bonsai_multi"] and rc1 != 0 and rc2 == 0)
